@@ -1438,7 +1438,7 @@ func init() {
 		ID:    "C12",
 		Level: "exploration",
 		Rule: "random: per round one anchor handle keeps accepting while 0..5 other handles on the same address are acquired and closed (synchronously or concurrently with traffic), 150..500 connections/datagrams with unique ids; calls are stamped at the handle boundary; " +
-			"forced (hook H3): connection held by the fan-out goroutine while a non-last / the last handle closes, reads on a closed packet handle with 1..3 datagrams pending, pending read unblocked by close, re-acquisition after full release; after every last close: rebind, no listeners.go goroutine, fd table at baseline; class = (phase, kind, scenario)",
+			"forced (hook H3): connection held by the fan-out goroutine while a non-last / the last handle closes, reads on a closed packet handle with 1..3 datagrams pending, pending read unblocked by close, re-acquisition after full release, read request taken by the fan-out then reader closes, stream and packet handles on one address, acquisition of an address in use after a racing last close, repeated Close of stream handles; burst: 2 senders back to back, 4 concurrent readers on one handle + 1 on another, self-describing datagrams; after every last close: rebind, no listeners.go goroutine, fd table at baseline; class = (phase, kind, scenario)",
 		Assumptions: []string{"B = 10 s bounded-progress restatement of 'is delivered / returns' (normal: < 5 ms on loopback)"},
 		Batches:     func(t string) int { return map[string]int{"quick": 6, "thorough": 24}[t] },
 		Parallel:    func(t string) int { return 6 },
